@@ -161,7 +161,7 @@ def label_to_op(name, args):
         return "%s %s" % (op, pstr(p))
     if op in ("copy", "copylim", "rename"):
         return "%s %s %s %d" % (op, pstr(p), pstr(q), k)
-    if op in ("dunlink", "symlink", "dcreated"):
+    if op in ("dunlink", "symlink", "dcreated", "dcreateroot"):
         return "%s %s %d" % (op, pstr(p), k)
     raise ValueError(op)
 
@@ -194,7 +194,9 @@ def rand_fs_exec(rng, nops):
                 hopen = False
             continue
         x = rng.random()
-        if x < 0.04:
+        if x < 0.01:
+            ops.append("dcreateroot a %d" % rng.randint(0, 1))         # Directory::create("/") / ("/tmp"): exist, so it must say so
+        elif x < 0.04:
             ops.append("dcreated %s %d" % (p, rng.randint(0, 1)))
         elif x < 0.12:
             ops.append("dcreate " + p)
@@ -203,7 +205,7 @@ def rand_fs_exec(rng, nops):
         elif x < 0.34:
             ops.append("get " + p)
         elif x < 0.41:
-            ops.append("copy %s %s %d" % (p, q, rng.randint(0, 1)))
+            ops.append("copy %s %s %d" % (p, p if rng.random() < 0.12 else q, rng.randint(0, 1)))      # (sometimes onto itself)
         elif x < 0.44:
             ops.append("copylim %s %s %d" % (p, q, rng.randint(0, 7)))       # failIfExists + 2 * (no file may grow beyond this)
         elif x < 0.56:
